@@ -11,6 +11,8 @@ SECRET_FIELDS = {(t, 'api_key'): 'api_key' for t in SECRET_TYPES}
 SECRET_FIELDS[('ripd::config::ApiKeySource', '0')] = 'inline api key'
 HEADER_FIELDS = {(t, 'headers') for t in SECRET_TYPES}
 BEARING = SECRET_TYPES + ['ripd::config::ApiKeySource', 'ripd::config::RipConfig', 'ripd::config::LoadedConfig']
+# the outgoing request carries the secrets once bearer_auth / header attached them: formatting it leaks header values
+REQUEST_TYPES = ['reqwest::async_impl::request::RequestBuilder', 'reqwest::async_impl::request::Request', 'http::header::map::HeaderMap']
 SOURCE_CALLS = r'^ripd::config::ApiKeySource::resolve$'
 SANCTIONED = [r'reqwest::async_impl::request::RequestBuilder::(bearer_auth|header|headers)$', r'^std::env::set_var$']
 DECLASS = [r'::is_some$', r'::is_none$', r'::is_empty$', r'::len$', r'::is_some_and$', r'^ripd::config::ApiKeySource::description$']
@@ -26,11 +28,17 @@ def run(ctx):
     P = ctx.prog
     ctx.not_decided = 'what a provider echoes back in a response body (an Authorization header echoed in an error body would be recorded as provider data).'
     ctx.rule('C19.1', 'source -> sink information flow: values read from the declared secret slots (api_key of the three config types, ApiKeySource::Inline), results of ApiKeySource::resolve and of env lookups whose constant key ends in API_KEY, never reach a frame / payload aggregate, a formatting argument, a serialiser, a file write, an HTTP response constructor or a struct literal of a non-config type; the only uses are RequestBuilder::bearer_auth / header, presence tests and hand-over through env::set_var with a constant *_API_KEY name.')
-    ctx.rule('C19.2', 'no formatting / serialising of secret-bearing types: no Debug / Display / Serialize instantiation on the config types outside derive expansions.')
+    ctx.rule('C19.2', 'no formatting / serialising of secret-bearing types: no Debug / Display / Serialize instantiation on the config types, nor on the outgoing reqwest RequestBuilder / Request / HeaderMap (which carry the attached header values), outside derive expansions.')
+    ctx.rule('C19.4', 'serde type errors quote the offending value: the Err of a typed deserialisation into a secret-bearing config type is a secret source (variant-precise) and must not reach a frame, a formatted message, a serialiser, a file or a diagnostics struct.')
     ctx.rule('C19.3', 'header values: every read of a `headers` slot of the config types either moves it into another config slot, hands name and value to RequestBuilder::header, or projects the names only (closure returning tuple field 0).')
 
     def source_call(site):
         c = site.callee
+        if re.search(r'^serde_json::(value::from_value|value::de::from_value|de::from_str|de::from_slice|de::from_reader)$', c) and any(
+                any(g == t or g.startswith(t + '<') for t in BEARING) for g in site.ga):
+            # serde *type* errors quote the offending value ("invalid type: string \"sk-...\""): the Err of a
+            # typed parse into a secret-bearing config type is secret-derived; the Ok value is covered by its slots
+            return ('variant', 'Err', 'the error of a typed config parse (quotes config values)')
         if re.search(SOURCE_CALLS, c):
             return 'ApiKeySource::resolve'
         if re.search(r'^std::env::(var|var_os)$|^ripd::config::env_var$', c) and site.args:
@@ -46,7 +54,8 @@ def run(ctx):
     T = Taint(P, lambda o, n: SECRET_FIELDS.get((o, n)), source_call=source_call, sanitizers=SANCTIONED, declassifiers=DECLASS,
               scope=lambda f: f.crate in ('ripd', 'rip', 'rip_provider_openresponses', 'rip_openresponses', 'rip_tools', 'rip_kernel', 'rip_log'),
               carrier_fields=lambda adt, fld: (adt, fld) in SECRET_FIELDS or (adt == 'ripd::config::ApiKeySource'),
-              clean_type=clean_type).run()
+              clean_type=clean_type,
+              agg_sink=lambda adt: not re.search(WRAPPERS, adt) and adt not in BEARING).run()
     readers = set()
     nsrc = 0
     sinks = 0
@@ -127,7 +136,7 @@ def run(ctx):
             if not m:
                 continue
             for g in s.ga:
-                if any(g == t or g.startswith(t + '<') or ('<' + t) in g or g == '&' + t for t in BEARING):
+                if any(g == t or g.startswith(t + '<') or ('<' + t) in g or g == '&' + t for t in BEARING + REQUEST_TYPES):
                     bad += 1
                     ctx.ob('C19.2', f, 'secret-bearing-type-formatted', False, '%s a secret-bearing type: %s::<%s>' % (m, s.name, g), line=s.line)
     ctx.ob('C19.2', 'workspace', 'no-secret-type-formatting', bad == 0, '%d formatting / serialising instantiation(s) on %s' % (bad, [t.rsplit('::', 1)[-1] for t in BEARING]))
